@@ -8,6 +8,7 @@ structure DState where
   st : St
   samp : Int
   itemLast : Int
+  prevInterval : Nat := 0      -- the interval before the last `setinterval` (0 = never changed); tags only
 
 /-- timestamps far outside anything `now` can reach stand for DateTime::null() and endtimes() -/
 def parseTs? (s : String) : Option Int :=
@@ -37,6 +38,14 @@ def elapsedTags (s : St) (now : Int) : List String :=
     if sub.state = .creating then ["tick:creating"]
     else if now < s.last then ["tick:clock-backwards"]
     else [cmp3i "tick:elapsed-vs-interval" (now - s.last) s.interval]
+
+/-- after an interval change: where the tick falls relative to the OLD interval as well -/
+def oldIntervalTags (s : St) (prev : Nat) (now : Int) : List String :=
+  match s.z.sub with
+  | none => []
+  | some sub =>
+    if prev = 0 ∨ prev = s.interval ∨ sub.state = .creating ∨ now < s.last then []
+    else [cmp3i "tick:elapsed-vs-old-interval" (now - s.last) prev]
 
 def itemTags (samp last now : Int) (e : Bool) : List String :=
   if samp < 0 then [if e then "item:minus1-elapsed" else "item:minus1-notelapsed"]
@@ -68,7 +77,7 @@ def dstep (d : DState) (toks : List String) : DState × String :=
     match parseInt? n with
     | some n =>
       let tags := expireTags d.st n ++
-        (match expireStep true d.st n with | some (s1, _) => elapsedTags s1 n | none => [])
+        (match expireStep true d.st n with | some (s1, _) => elapsedTags s1 n ++ oldIntervalTags s1 d.prevInterval n | none => [])
         ++ (if d.st.z.reqs.isEmpty then ["expire:queue-empty"] else [])
       match cycle true d.st n with
       | some (s, o) => ({ d with st := s }, showSt s o.timedOut o.resps
@@ -92,6 +101,17 @@ def dstep (d : DState) (toks : List String) : DState × String :=
       | .tooMany s out => ({ d with st := s }, "ok res=toomany " ++ (showSt s [] out).drop 3 ++ tagStr ["pub:toomany"])
       | .panic => (d, "panic")
     | _, _, _ => (d, "bad-op")
+  | ["setinterval", ms] =>
+    -- ModifySubscription with a new publishing interval (counts unchanged)
+    match ms.toNat? with
+    | some ms =>
+      if d.st.z.sub.isNone then (d, "err nosub" ++ tagStr ["setinterval:nosub"])
+      else
+        let s := setInterval d.st (ms * 1000)
+        ({ d with st := s, prevInterval := d.st.interval },
+          showSt s [] [] ++ tagStr [if ms * 1000 < d.st.interval then "setinterval:shrink"
+                                    else if ms * 1000 = d.st.interval then "setinterval:same" else "setinterval:grow"])
+    | none => (d, "bad-op")
   | ["itick", n, e] =>
     match parseInt? n, parseBool? e with
     | some n, some e =>
